@@ -72,8 +72,9 @@ def _matching_value(run: Run):
     return None, None
 
 
-def check_rows(rep, run: Run, D: Blocks, row_entries, cond, raw_r, raw_c, node, what):
-    """row_entries: (col0, col1, col2) expressions; cond: condition under which the row is listed"""
+def check_rows(rep, run: Run, D: Blocks, row_entries, cond, raw_r, raw_c, node, what, drop=True):
+    """row_entries: (col0, col1, col2) expressions; cond: condition under which the row is listed; drop=False when the
+    rows are one part of a table whose listing condition is checked for the whole table"""
     fi = run.fi
     M, N = sym.Size(("rows", run.a)), sym.Size(("rows", run.b))
     c0, c1, c2 = row_entries
@@ -97,8 +98,14 @@ def check_rows(rep, run: Run, D: Blocks, row_entries, cond, raw_r, raw_c, node, 
                                          f"decided the distance")
     # MT-DROP: listed iff not diagonal-diagonal
     spec_cond = sym.Not(sym.And(sym.Cmp(">=", raw_r, M), sym.Cmp(">=", raw_c, N)))
-    ok, w = symeval.equivalent(cond, spec_cond, trials=200, nrows=3)
-    if ok is True:
+    if not drop:
+        spec_cond = sym.And(spec_cond, cond)
+        ok, w = "skip", None
+    else:
+        ok, w = symeval.equivalent(cond, spec_cond, trials=200, nrows=3)
+    if ok == "skip":
+        pass
+    elif ok is True:
         rep.discharged("MT-DROP", fi, node, f"{what}: a row is listed iff it is not a diagonal–diagonal pair",
                        derived=sym.show(cond)[:160])
     elif ok is False:
@@ -132,7 +139,7 @@ def check_bottleneck(rep, project):
     appends = [ev for ev in run.events("method-call") if ev["target"] == "append"
                and isinstance(ev["pos"][0], Seq) and len(ev["pos"][0].items) == 3]
     if not appends:
-        rep.unmodelled("MT-COST", fi, fi.node, "no 3-entry row is appended to a matching list")
+        _bottleneck_table(rep, run, D)
         return
     ev = appends[-1]
     items = ev["pos"][0].items
@@ -167,8 +174,134 @@ def check_bottleneck(rep, project):
         if raw_c is None:
             rep.unmodelled("MT-COST", fi, ev["node"], "partner lookup in the accepted matching not found")
             return
+    if not _partner_key_ok(rep, fi, ev["node"], raw_c, raw_r):
+        return
     check_rows(rep, run, D, (items[0].e, items[1].e, items[2].e), ev["reach"], raw_r, raw_c, ev["node"],
                "bottleneck matching row")
+
+
+def _partner_key_ok(rep, fi, node, raw_c, raw_r):
+    """MT-PROV: the partner of row i is looked up in the accepted matching under the key of row i itself"""
+    keys = {x[2][-1] for x in sym.walk(raw_c) if x[0] == "opq" and x[1] == "hk_partner" and x[2]}
+    if len(keys) != 1:
+        rep.unmodelled("MT-PROV", fi, node, f"expected one partner lookup per row, found {len(keys)}")
+        return False
+    key = next(iter(keys))
+    if key[0] == "opq" and key[1] == "unknown-key":
+        rep.unmodelled("MT-PROV", fi, node, "the key used to look up the partner in the accepted matching is not modelled")
+        return False
+    if key == raw_r:
+        rep.discharged("MT-PROV", fi, node, "the partner is looked up in the accepted matching under the row's own position")
+        return True
+    ok, w = symeval.equivalent(key, raw_r, trials=60, nrows=3)
+    if ok is False:
+        rep.refuted("MT-PROV", fi, node, f"the partner of row {sym.show(raw_r)[:40]} is looked up under key "
+                                         f"{sym.show(key)[:80]}: the row is paired with another row's partner")
+        return False
+    if ok is True:
+        rep.discharged("MT-PROV", fi, node, "the partner is looked up under the row's own position (identity-tested)")
+        return True
+    rep.unmodelled("MT-PROV", fi, node, f"cannot compare the lookup key with the row position ({w})")
+    return False
+
+
+def _row_domain(key, riv):
+    """the rows of a table axis as a condition on the position in the un-masked, un-sliced row space: masks that
+    selected rows and slice bounds, with the position named `riv` throughout"""
+    cond = sym.TRUE
+    pos = sym.IV(riv)
+    while isinstance(key, tuple) and key and key[0] in ("sub", "slice"):
+        if key[0] == "sub":
+            cond = sym.And(cond, _rename_iv(key[2], riv))
+        else:
+            cond = sym.And(cond, sym.Cmp(">=", pos, key[2]), sym.Cmp("<", pos, key[3]))
+        key = key[1]
+    return cond, key
+
+
+def _array_rows(mv):
+    """an (n,3) matching table held as one array: its three column expressions (per row position), the listing
+    condition and the un-masked row space"""
+    (rsp, riv), (csp, civ) = mv.axes
+    cols = [sym.subst_ivar(mv.elem, civ, k) for k in range(3)]
+    cond, parent = _row_domain(rsp.key, riv)
+    return riv, cols, cond, parent
+
+
+def _bottleneck_table(rep, run: Run, D: Blocks):
+    """the matching rows are built as a whole table (arange / where / column_stack / mask / vstack of parts) rather than
+    appended one by one: the same per-row obligations are read off the element expression of every part, and the
+    listing condition is the union of the parts' row domains"""
+    from ..core.values import VStack
+    fi = run.fi
+    rev, mv = _matching_value(run)
+    node = rev["node"] if rev else fi.node
+    parts = list(mv.ordered) if isinstance(mv, VStack) else [mv]
+    if not parts or not all(isinstance(p, Arr) and p.ndim == 2 and p.axes[1][0].concrete == 3 for p in parts):
+        rep.unmodelled("MT-COST", fi, node, "no 3-entry row is appended to a matching list and the returned matching "
+                                            f"is not an (n,3) table: {mv!r}"[:220])
+        return
+    M, N = sym.Size(("rows", run.a)), sym.Size(("rows", run.b))
+    pos = "_row"
+    conds = []
+    raw_r = sym.IV(pos)
+    raw_c = None
+    for k, part in enumerate(parts):
+        riv, cols, cond, parent = _array_rows(part)
+        cols = [sym.subst_ivar(c, riv, (pos, 0)) for c in cols]
+        cond = sym.subst_ivar(cond, riv, (pos, 0))
+        if not (isinstance(parent, tuple) and parent and parent[0] == "range"):
+            rep.unmodelled("MT-COVER", fi, node, f"the table's rows range over {parent}, not over positions of the matrix"[:200])
+            return
+        if not sym.equal(parent[1], sym.add(M, N)):
+            rep.refuted("MT-COVER", fi, node, f"the table ranges over {sym.show(parent[1])[:80]} rows instead of M+N: "
+                                              f"some points never appear in the matching")
+            return
+        partners = {x for c in cols + [cond] for x in sym.walk(c) if x[0] == "opq" and x[1] == "hk_partner"}
+        if len(partners) != 1:
+            rep.unmodelled("MT-COST", fi, node, f"expected one partner lookup in the accepted matching per row, found "
+                                                f"{len(partners)}")
+            return
+        rc = next(iter(partners))
+        if raw_c is not None and rc != raw_c:
+            rep.unmodelled("MT-PROV", fi, node, "the parts of the table look partners up in different ways")
+            return
+        raw_c = rc
+        if k == 0 and not _partner_key_ok(rep, fi, node, raw_c, raw_r):
+            return
+        conds.append(cond)
+        check_rows(rep, run, D, cols, cond, raw_r, raw_c, node,
+                   "bottleneck matching table row" + (f" (part {k + 1} of {len(parts)})" if len(parts) > 1 else ""),
+                   drop=len(parts) == 1)
+    rep.discharged("MT-COVER", fi, node, "the table is drawn from all M+N rows of the matrix (before rows are selected)")
+    if len(parts) > 1:
+        spec_cond = sym.Not(sym.And(sym.Cmp(">=", raw_r, M), sym.Cmp(">=", raw_c, N)))
+        dom = sym.And(sym.Cmp(">=", raw_r, sym.ZERO), sym.Cmp("<", raw_r, sym.add(M, N)))  # positions of the matrix
+        union = sym.And(dom, sym.Or(*conds))
+        spec_cond = sym.And(dom, spec_cond)
+        ok, w = symeval.equivalent(union, spec_cond, trials=300, nrows=3)
+        if ok is True:
+            twice = None
+            for a in range(len(conds)):
+                for b in range(a + 1, len(conds)):
+                    ok2, w2 = symeval.equivalent(sym.And(dom, conds[a], conds[b]), sym.FALSE, trials=300, nrows=3)
+                    if ok2 is False:
+                        twice = (a, b, w2)
+                    elif ok2 is None:
+                        rep.unmodelled("MT-DROP", fi, node, f"cannot evaluate the overlap of parts {a + 1} and {b + 1} ({w2})")
+                        return
+            if twice:
+                rep.refuted("MT-DROP", fi, node, f"parts {twice[0] + 1} and {twice[1] + 1} of the table both list the same "
+                                                 f"row of the matrix; witness {twice[2]}")
+            else:
+                rep.discharged("MT-DROP", fi, node, "the parts of the table together list every row that is not a "
+                                                    "diagonal–diagonal pair, each once", derived=sym.show(union)[:200])
+        elif ok is False:
+            rep.refuted("MT-DROP", fi, node, f"the parts of the table together list the rows with {sym.show(union)[:200]} "
+                                             f"instead of 'not (row ≥ M and col ≥ N)': a point is missing from the matching "
+                                             f"or a diagonal–diagonal pair is listed; witness {w}")
+        else:
+            rep.unmodelled("MT-DROP", fi, node, f"cannot evaluate the listing condition ({w})")
 
 
 def check_wasserstein(rep, project):
@@ -181,8 +314,7 @@ def check_wasserstein(rep, project):
     if not isinstance(mv, Arr) or mv.ndim != 2 or mv.axes[1][0].concrete != 3:
         rep.unmodelled("MT-COST", fi, rev["node"] if rev else fi.node, f"returned matching is not an (n,3) array: {mv!r}"[:200])
         return
-    (rsp, riv), (csp, civ) = mv.axes
-    cols = [sym.subst_ivar(mv.elem, civ, k) for k in range(3)]
+    riv, cols, cond, parent = _array_rows(mv)
     lsa = run.events("linear_sum_assignment")
     if len(lsa) != 1:
         rep.unmodelled("MT-COVER", fi, fi.node, "solver call not found")
@@ -201,16 +333,6 @@ def check_wasserstein(rep, project):
         return
     raw_r = sym.Opq("lsa_rows", (dep, sym.IV(riv)), uid)
     raw_c = sym.Opq("lsa_cols", (dep, sym.IV(riv)), uid)
-    # listing condition = the mask of the row sub-space
-    key = rsp.key
-    cond = sym.TRUE
-    parent = key
-    while isinstance(parent, tuple) and parent and parent[0] == "sub":
-        c = parent[2]
-        for x in sym.walk(c):
-            pass
-        cond = sym.And(cond, _rename_iv(c, riv))
-        parent = parent[1]
     total = sym.add(sym.Size(("rows", run.a)), sym.Size(("rows", run.b)))
     psize = sym.Size(parent) if not (isinstance(parent, tuple) and parent and parent[0] == "range") else parent[1]
     if isinstance(parent, tuple) and parent and parent[0] == "range" and sym.equal(parent[1], total):
@@ -224,7 +346,7 @@ def _rename_iv(c, riv):
     """the mask was built on the row axis of the array at masking time: rename that position variable only"""
     out = c
     for x in sym.walk(c):
-        if x[0] == "opq" and x[1] in ("lsa_rows", "lsa_cols"):
+        if x[0] == "opq" and x[1] in ("lsa_rows", "lsa_cols", "hk_partner"):
             for d in x[2]:
                 if isinstance(d, sym.Expr) and d[0] == "iv" and d[1] != riv:
                     out = sym.subst_ivar(out, d[1], (riv, 0))
@@ -245,7 +367,7 @@ def run(project: Project, rep, tier: str):
                "arrays of equal length; exact arithmetic")
     check_bottleneck(rep, project)
     check_wasserstein(rep, project)
-    for r, n in (("MT-NONINT", 2), ("MT-COST", 2), ("MT-MINUS1", 4), ("MT-DROP", 2), ("MT-COVER", 2)):
+    for r, n in (("MT-NONINT", 2), ("MT-COST", 2), ("MT-MINUS1", 4), ("MT-DROP", 2), ("MT-COVER", 2), ("MT-PROV", 1)):
         rep.floor(r, n)
     for t in ("hopcroftkarp.HopcroftKarp.maximum_matching", "scipy.optimize.linear_sum_assignment", "numpy.zeros",
               "numpy.array"):
